@@ -3,6 +3,7 @@ import Drivers.Num
 import Drivers.TimeD
 import Drivers.Tab
 import Drivers.StoreD
+import Drivers.RotD
 
 def main (args : List String) : IO UInt32 := do
   let stdin ← IO.getStdin
@@ -13,4 +14,5 @@ def main (args : List String) : IO UInt32 := do
   | ["tab"] => Drivers.loop stdin (⟨[], 0, 0⟩ : Fix8Model.SortedSet.PSet) Drivers.Tab.stepAll; return 0
   | ["store"] => Drivers.loop stdin Drivers.StoreD.St.none Drivers.StoreD.step; return 0
   | ["crash"] => Drivers.loop stdin Fix8Model.Store.FS.init Drivers.CrashD.step; return 0
+  | ["rot"] => Drivers.loop stdin () (fun _ l => ((), Drivers.RotD.step l)); return 0
   | _ => IO.eprintln "usage: driver <stream>"; return 2
